@@ -43,7 +43,8 @@ func String(str string, t reflect.Type) (reflect.Value, error) {
 			if castVal.Kind() == reflect.Ptr {
 				castVal = castVal.Elem()
 			}
-			castSlice = reflect.Append(castSlice, castVal)
+			// elements of user-defined named types are parsed as their underlying type
+			castSlice = reflect.Append(castSlice, castVal.Convert(t.Elem()))
 		}
 		return castSlice, nil
 
